@@ -76,6 +76,9 @@ def execute(world, op, adopt=True, pre_hook=None):
         if isinstance(spec, list) and spec and spec[0] == "elem":
             # the object currently stored at <attr>[i] of the receiver (aliasing an existing element)
             o = getattr(world.objs[t], spec[1])[spec[2]]
+        elif isinstance(spec, list) and spec and spec[0] == "attr":
+            # the object currently stored at attribute <attr> of the receiver (aliasing between two attributes)
+            o = getattr(world.objs[t], spec[1])
         else:
             o = env.mk(spec)
         world.args.append(o)
@@ -430,6 +433,12 @@ def gen_ops(rec, world, P):
             ops += element_ops(n, K, a, obj, P)
         if P.get("assign", True):
             ops += assign_ops(n, K, a, obj, P)
+    for a1, a2 in rec.get("opts", {}).get("alias_pairs", []):
+        if a1 in vars(obj):
+            for ip in P.get("inplace", (False, True)):
+                ops.append(_call(f"with_{a2}", "with:alias_attr", ["attr", a1], **_flags(ip)))
+            if P.get("assign", True):
+                ops.append({"op": "set", "attr": a2, "value": ["attr", a1], "shape": "set:alias_attr"})
     if P.get("toplevel", True):
         ops += toplevel_ops(rec, obj, P)
     if P.get("deepcopy", True):
